@@ -1789,8 +1789,21 @@ struct ClosureApplyFn {
 
 fn compile_go(goenv: &GlobalGoEnv, closure: &anf::ImmExpr) -> goast::Stmt {
     let closure_ty = imm_ty(closure);
-    let apply = find_closure_apply_fn(goenv, &closure_ty)
-        .expect("go statement closure must have an apply method");
+    let Some(apply) = find_closure_apply_fn(goenv, &closure_ty) else {
+        // not a closure environment: a plain function value (`go worker;` with a top-level function) is called directly
+        let ret_ty = match &closure_ty {
+            tast::Ty::TFunc { ret_ty, .. } => (**ret_ty).clone(),
+            _ => panic!("go statement expects a closure or a function value"),
+        };
+        let call = anf::CExpr::ECall {
+            func: closure.clone(),
+            args: Vec::new(),
+            ty: ret_ty,
+        };
+        return goast::Stmt::Go {
+            call: compile_cexpr(goenv, &call),
+        };
+    };
 
     let apply_call = anf::CExpr::ECall {
         func: anf::ImmExpr::ImmVar {
